@@ -11,8 +11,9 @@ Never commits anything to /repo; restores each file after use (and `git checkout
 """
 import os, re, subprocess, sys, json, time
 
-REPO = "/repo"
-VERIF = "/verif"
+# MUT_REPO / MUT_VERIF: run the campaign on a scratch copy of the repository and of /verif (harness pointing at the copy)
+REPO = os.environ.get("MUT_REPO", "/repo")
+VERIF = os.environ.get("MUT_VERIF", "/verif")
 FILES = ["src/body.rs", "src/chunk.rs", "src/parser.rs", "src/ext.rs", "src/util.rs",
          "src/client/amended.rs", "src/client/call.rs", "src/client/flow.rs", "src/client/holder.rs"]
 PROPS = ["C%02d" % i for i in range(1, 21)]
